@@ -240,6 +240,9 @@ func (r *Report) Finish(o FinishOpts) int {
 	for k, v := range r.Extra {
 		cov[k] = v
 	}
+	if r.Assume == nil {
+		r.Assume = []string{}
+	}
 	ev := map[string]interface{}{
 		"property_id": r.Property,
 		"tier":        r.Tier,
